@@ -129,6 +129,8 @@ class ModuleAdd(AddBase):
         prior = st0.heap.get("namespace", m)[name]
         return z3.And(res.z == v, st.heap.get("namespace", m) == ns_after(st0, m, name, v),
                       st.heap.get("_parent_module", v) == m,
+                      st.heap.arr("Module._elab_error") == st0.heap.arr("Module._elab_error"),
+                      st.heap.arr("Module._elaborated") == st0.heap.arr("Module._elaborated"),
                       self.others_frame(st0, st, m, v, v))
 
     def p_inv(self, eng, st0, st, a, res):
@@ -399,3 +401,12 @@ CONTRACTS = [ModuleAdd(), AttrTypeError(), ModuleSetattr(), ModuleAddMethod(), M
              BundleAdd()]
 INLINE = {"hdl21.module:_assert_module_attr", "hdl21.module:_is_module_attr"}
 VERIFY = [c for c in CONTRACTS if not isinstance(c, AttrTypeError)]
+# __setattr__/__getattr__ hooks are always entered (inlined) at attribute accesses, never replaced by their contract
+CALLEE_CONTRACTS = [c for c in CONTRACTS if not c.key.endswith(("__setattr__", "__getattr__"))]
+SCHEMA_EXTRA = {"Module._elab_error": "ref"}
+
+
+def engine():
+    fc = dict(FIELD_CLASSES)
+    fc["Module._elab_error"] = (Exception,)
+    return mk_engine(contracts=CALLEE_CONTRACTS, inline=INLINE, field_classes=fc, schema_extra=SCHEMA_EXTRA)
